@@ -10,6 +10,35 @@ NOTE = ("Trusted: Lean 4.33 kernel; axioms propext / Classical.choice / Quot.sou
         "standards. CPython's re/str/int semantics are modelled, not verified.")
 
 CLAIMS = {
+    "C14": dict(
+        text="PARTIAL. Lean 4 theorems: non-interference for ANY number of threads and ANY schedule (induction over the "
+             "schedule, no bound) in the model where each thread steps its own state and only reads the shared "
+             "environment - every thread ends where it ends when run alone; and a proof that one scratch cell shared by "
+             "the threads (the pinned design) violates the property (three-step schedule). Tie to the code: an effect "
+             "probe regenerated on every run (attribute written on every algorithm singleton by one thread and read "
+             "by another; fingerprints of registry._registry and the singletons around a battery of calls run in "
+             "another thread) discharges the kernel-checked obligations `sharedScratch = []` and "
+             "`sharedWritesAfterImport = []`. Search/replay on the REAL code: tools/sched.py runs two library calls in "
+             "two threads under a deterministic line-level scheduler and enumerates single-preemption schedules in "
+             "forked children. Not modelled: preemption finer than a source line, the free-threaded build, "
+             "third-party modules, the import lock.",
+        design="7 (C14)",
+        technique="Lean 4 proof (non-interference by induction over schedules) + regenerated effect summary "
+                  "obligations + deterministic line-level schedule enumeration on the real code"),
+    "C15": dict(
+        text="PARTIAL. Lean 4 theorems: generic history independence (if a call's outcome does not depend on the "
+             "hidden state, then after ANY finite history - by induction - every call yields its first-call outcome), "
+             "instantiated for the only state the library keeps between calls, the German algorithms' scratch cell, "
+             "from the C07 per-method theorems (outcome independent of the incoming scratch for all ten digits; "
+             "history theorem spelled out for method 25); registries are an immutable parameter of the model and the "
+             "effect-probe obligation `sharedWritesAfterImport = []` is kernel-checked on regenerated data. Dynamic: "
+             "random call histories (incl. failing and malformed calls, seeded random generation, lookup sequences) "
+             "run in fresh forked children, each outcome compared with the same call as the FIRST call of another "
+             "fresh child, registries fingerprinted, earlier objects re-read. Not provable here: absence of hidden "
+             "state in CPython / third-party modules.",
+        design="7 (C15)",
+        technique="Lean 4 proof (induction over call histories; scratch-independence from C07) + regenerated "
+                  "effect obligations + fork-based first-call differential on random histories"),
     "C16": dict(
         text="Lean 4 theorems: == is an equivalence and is equality of the compact strings (also against plain "
              "str), equal objects have equal hash keys, < is the irreflexive, transitive, total lexicographic order "
